@@ -133,7 +133,7 @@ def build_trace(instances, results, profile):
     meta = []  # per instance: dict(name, first, last, status, wall_ms, nsteps)
     for I in instances:
         evs = results.get(I["name"], [])
-        trace.append({"ev": "load", "name": I["name"], "I": gen.spec_view(I)})
+        trace.append({"ev": "load", "name": I["name"], "I": gen.spec_view(I), "dec": gen.decoupled(I)})
         li = len(trace)
         idx = {"mcf": 0, "start": 0, "ls": 0, "transopt": 0, "final": 0, "out": 0}
         prev = 0
